@@ -321,10 +321,13 @@ impl SwiftField for Field53SenderCorrespondent {
                 let field = Field53D::parse(value)?;
                 Ok(Field53SenderCorrespondent::D(field))
             }
-            _ => {
-                // No variant specified, fall back to default parse behavior
+            None => {
+                // No option letter given: the option is inferred from the content
                 Self::parse(value)
             }
+            Some(other) => Err(ParseError::InvalidFormat {
+                message: format!("Field 53 has no option {}", other),
+            }),
         }
     }
 
